@@ -216,7 +216,19 @@ fn lists(_t: Tier) -> BoxedStrategy<Case> {
             if neg { -x } else { x }
         }),
     ];
-    vec(val, 1..9).prop_map(Case::Values).boxed()
+    (vec(val, 1..9), proptest::option::weighted(0.3, (any::<u16>(), -2i64..3, 0i64..3)))
+        .prop_map(|(mut xs, twin)| {
+            // neighbours that agree in their low 32 bits (or are equal / off by one)
+            if let Some((at, m, d)) = twin {
+                let i = crate::model::idx16(at, xs.len());
+                let t = xs[i].saturating_add(m * (1i64 << 32)).saturating_add(d - 1);
+                if t.unsigned_abs() < (1 << 62) {
+                    xs.insert(i + 1, t);
+                }
+            }
+            Case::Values(xs)
+        })
+        .boxed()
 }
 
 /// Every string over the base64 alphabet up to length 3 (quick) / 4 (thorough), "" included.
